@@ -65,27 +65,48 @@ Proof.
 Qed.
 
 (* [predA] may look at a buffer whose old part differs from the encoder's, as long
-   as it predicts the same thing *)
-Lemma fill_resid_gen (predA predB : list Z -> option Z) (A B : list Z) :
+   as it predicts the same thing.  Reading the residuals of a sequence rebuilds
+   the sequence. *)
+Lemma read_loop_parses (predA predB : list Z -> option Z) (A B : list Z) resn :
+  0 <= resn ->
   (forall X, predA (X ++ A) = predB (X ++ B)) ->
   forall vs X rs, resid predB (X ++ B) vs = Some rs ->
-                  fill predA (X ++ A) rs = Some (rev vs ++ X ++ A).
+                  forallb fits32 rs = true -> forallb fits32 vs = true ->
+                  parses (read_loop (length vs) predA resn (X ++ A))
+                         (flat_map (var_put resn) rs) (rev vs ++ X ++ A).
 Proof.
-  intros HP. induction vs as [|v vs IH]; intros X rs H; simpl in H.
-  - injection H as <-. reflexivity.
+  intros Hr HP. induction vs as [|v vs IH]; intros X rs H Hfr Hfv; simpl in H.
+  - injection H as <-. apply (parses_ret (X ++ A)).
   - destruct (predB (X ++ B)) as [p|] eqn:Ep; [|discriminate].
     destruct (resid predB (v :: X ++ B) vs) as [rs'|] eqn:E; [|discriminate].
-    injection H as <-. simpl. rewrite HP, Ep.
-    replace (v - p + p) with v by lia.
-    change (v :: X ++ A) with ((v :: X) ++ A).
-    rewrite (IH (v :: X) rs' E). simpl. now rewrite <- app_assoc.
+    injection H as <-.
+    cbn [forallb] in Hfr, Hfv. apply andb_true_iff in Hfr, Hfv.
+    destruct Hfr as [Hr1 Hr2]. destruct Hfv as [Hv1 Hv2].
+    cbn [flat_map length].
+    apply (parses_bind (var_get resn)
+             (fun r b => if fits32 r then
+                           match predA (X ++ A) with
+                           | Some p => if fits32 (r + p)
+                                       then read_loop (length vs) predA resn ((r + p) :: X ++ A) b
+                                       else Err EUnspec
+                           | None => Err EUnspec
+                           end
+                         else Err EUnspec)
+             (var_put resn (v - p)) (flat_map (var_put resn) rs') (v - p) (rev (v :: vs) ++ X ++ A)).
+    + now apply var_roundtrip_l.
+    + eapply parses_ext.
+      { intros b. rewrite Hr1, HP, Ep. replace (v - p + p) with v by lia. rewrite Hv1. reflexivity. }
+      cbn [rev]. rewrite <- app_assoc. cbn [app].
+      exact (IH (v :: X) rs' E Hr2 Hv2).
 Qed.
 
-Lemma fill_resid pred vs buf rs :
-  resid pred buf vs = Some rs -> fill pred buf rs = Some (rev vs ++ buf).
+Lemma read_loop_resid pred resn vs buf rs :
+  0 <= resn -> resid pred buf vs = Some rs ->
+  forallb fits32 rs = true -> forallb fits32 vs = true ->
+  parses (read_loop (length vs) pred resn buf) (flat_map (var_put resn) rs) (rev vs ++ buf).
 Proof.
-  intros H.
-  pose proof (fill_resid_gen pred pred [] [] (fun X => eq_refl) vs buf rs) as G.
+  intros Hr H Hfr Hfv.
+  pose proof (read_loop_parses pred pred [] [] resn Hr (fun X => eq_refl) vs buf rs) as G.
   rewrite !app_nil_r in G. now apply G.
 Qed.
 
@@ -102,28 +123,28 @@ Proof.
 Qed.
 
 (* the decoder subtracts coffset from the nlpc latest history samples only *)
-Lemma fill_qlpc_partial o qs c hist vs rs :
+Lemma read_loop_qlpc_partial o qs c hist vs rs resn :
+  0 <= resn ->
   resid (pred_qlpc o qs) (map (fun x => x - c) hist) vs = Some rs ->
+  forallb fits32 rs = true -> forallb fits32 vs = true ->
   let k := length qs in
   let hist' := map (fun x => x - c) (firstn k hist) ++ skipn k hist in
-  fill (pred_qlpc o qs) hist' rs = Some (rev vs ++ hist').
+  parses (read_loop (length vs) (pred_qlpc o qs) resn hist')
+         (flat_map (var_put resn) rs) (rev vs ++ hist').
 Proof.
-  intros H k hist'. subst hist'.
+  intros Hr H Hfr Hfv k hist'. subst hist'.
   destruct (Nat.le_gt_cases k (length hist)) as [L | L].
   - rewrite <- (firstn_skipn k hist) in H at 1. rewrite map_app in H.
     set (P := map (fun x => x - c) (firstn k hist)) in *.
     assert (LP : length P = k) by (unfold P; rewrite map_length, firstn_length; lia).
-    pose proof (fill_resid_gen (pred_qlpc o qs) (pred_qlpc o qs)
-                  (skipn k hist) (map (fun x => x - c) (skipn k hist))) as G.
     assert (HP : forall X, pred_qlpc o qs (X ++ P ++ skipn k hist)
                            = pred_qlpc o qs (X ++ P ++ map (fun x => x - c) (skipn k hist))).
     { intros X. rewrite !app_assoc. apply pred_qlpc_app. rewrite app_length. unfold k in LP. lia. }
-    clear G.
-    pose proof (fill_resid_gen (fun b => pred_qlpc o qs b) (fun b => pred_qlpc o qs b)
-                  (P ++ skipn k hist) (P ++ map (fun x => x - c) (skipn k hist)) HP vs [] rs) as G.
-    simpl in G. apply G. exact H.
+    pose proof (read_loop_parses (fun b => pred_qlpc o qs b) (fun b => pred_qlpc o qs b)
+                  (P ++ skipn k hist) (P ++ map (fun x => x - c) (skipn k hist)) resn Hr HP vs [] rs) as G.
+    simpl in G. apply G; assumption.
   - rewrite firstn_all2 by lia. rewrite skipn_all2 by lia. rewrite app_nil_r.
-    now apply fill_resid.
+    now apply read_loop_resid.
 Qed.
 
 Lemma map_add_sub c l : map (fun x => x + c) (map (fun x => x - c) l) = l.
@@ -252,29 +273,25 @@ Qed.
 Lemma read_fill_diff c k resn co vs rs :
   k = 0 \/ k = 1 \/ k = 2 \/ k = 3 -> 0 <= resn ->
   resid (fun bf => Some (pred_diff (cmd_of_diff k) co bf)) (c_hist c) vs = Some rs ->
-  forallb fits32 rs = true ->
+  forallb fits32 rs = true -> forallb fits32 vs = true ->
   parses (read_fill h c (length vs) (cmd_of_diff k) resn co)
          (flat_map (var_put resn) rs) (rev vs ++ c_hist c).
 Proof.
-  intros Hk Hr Hres Hf.
+  intros Hk Hr Hres Hf Hfv.
   destruct (diff_codes k Hk) as (_ & _ & _ & Ez & Ed).
-  pose proof (resid_length _ _ _ _ Hres) as Hl.
   eapply parses_ext.
   { intros bs. unfold read_fill. rewrite Ez, Ed. reflexivity. }
-  rewrite <- (app_nil_r (flat_map (var_put resn) rs)).
-  eapply (parses_bind (var_get_n (length vs) resn)).
-  - rewrite <- Hl. apply var_get_n_roundtrip. exact Hr.
-  - cbv beta. rewrite Hf, (fill_resid _ _ _ _ Hres). simpl.
-    apply (parses_ret (rev vs ++ c_hist c)).
+  now apply read_loop_resid.
 Qed.
 
 Lemma read_fill_qlpc c resn co qs vs rs :
   0 <= resn ->
   (h_maxnlpc h <? Z.of_nat (length qs)) = false ->
   forallb fits32 qs = true ->
+  forallb fits32 (map (fun x => x - co) (firstn (length qs) (c_hist c))) = true ->
   resid (pred_qlpc (lpcqoffset_of h) qs) (map (fun x => x - co) (c_hist c))
         (map (fun x => x - co) vs) = Some rs ->
-  forallb fits32 rs = true ->
+  forallb fits32 rs = true -> forallb fits32 (map (fun x => x - co) vs) = true ->
   let k := length qs in
   let hist' := map (fun x => x - co) (firstn k (c_hist c)) ++ skipn k (c_hist c) in
   parses (read_fill h c (length vs) c_FN_QLPC resn co)
@@ -282,27 +299,26 @@ Lemma read_fill_qlpc c resn co qs vs rs :
           ++ flat_map (var_put resn) rs)
          (rev vs ++ hist').
 Proof.
-  intros Hr Hm Hq Hres Hf k hist'.
+  intros Hr Hm Hq Hsh Hres Hf Hfv k hist'.
   destruct qlpc_codes as (_ & _ & _ & Ez & Ed).
-  pose proof (resid_length _ _ _ _ Hres) as Hl. rewrite map_length in Hl.
   eapply parses_ext.
   { intros bs. unfold read_fill. rewrite Ez, Ed. reflexivity. }
   eapply (parses_bind (uvar_get c_LPCQSIZE)).
   { apply uvar_roundtrip_l; [apply width_nonneg|lia]. }
   cbv beta. rewrite Hm, Nat2Z.id.
-  eapply (parses_bind (var_get_n (length qs) c_LPCQUANT)).
-  { apply var_get_n_roundtrip. apply width_nonneg. }
-  cbv beta.
-  rewrite <- (app_nil_r (flat_map (var_put resn) rs)).
-  eapply (parses_bind (var_get_n (length vs) resn)).
-  { rewrite <- Hl. apply var_get_n_roundtrip. exact Hr. }
-  cbv beta. rewrite Hq, Hf. simpl andb. cbv iota.
-  pose proof (fill_qlpc_partial _ _ _ _ _ _ Hres) as HF. cbv zeta in HF.
-  rewrite HF. simpl of_option. unfold bind at 1.
-  rewrite (firstn_app_exact (rev (map (fun x => x - co) vs))) by (now rewrite rev_length, map_length).
-  rewrite (skipn_app_exact (rev (map (fun x => x - co) vs))) by (now rewrite rev_length, map_length).
-  rewrite <- map_rev, map_add_sub.
-  apply (parses_ret (rev vs ++ hist')).
+  eapply (parses_bind (var_get_n_chk (length qs) c_LPCQUANT)).
+  { apply var_get_n_roundtrip; [apply width_nonneg|exact Hq]. }
+  cbv beta zeta. rewrite Hsh.
+  pose proof (read_loop_qlpc_partial (lpcqoffset_of h) qs co (c_hist c) _ rs resn Hr Hres Hf Hfv) as HF.
+  cbv zeta in HF. rewrite map_length in HF.
+  set (F := fun buf : list Z => map (fun x => x + co) (firstn (length vs) buf) ++ skipn (length vs) buf).
+  assert (EV : F (rev (map (fun x => x - co) vs) ++ hist') = rev vs ++ hist').
+  { unfold F.
+    rewrite (firstn_app_exact (rev (map (fun x => x - co) vs))) by (now rewrite rev_length, map_length).
+    rewrite (skipn_app_exact (rev (map (fun x => x - co) vs))) by (now rewrite rev_length, map_length).
+    now rewrite <- map_rev, map_add_sub. }
+  rewrite <- EV.
+  exact (parses_map _ F _ _ HF).
 Qed.
 
 Lemma dec_block_parses st c cmd enc_resn resn enc_body buf st' :
@@ -464,10 +480,14 @@ Proof.
   - (* FN_QLPC *)
     destruct ((h_maxnlpc h <? Z.of_nat (length qs)) || negb (forallb fits32 qs)
               || negb ((Z.of_nat (Z.to_nat (nwrap_of h)) <=? e_bs es)
-                       || (Z.of_nat (length qs) =? 0) || (co =? 0))) eqn:Hq; [discriminate|].
+                       || (Z.of_nat (length qs) =? 0) || (co =? 0))
+              || negb (forallb fits32 (map (fun x => x - co) (firstn (length qs) (c_hist c))))
+              || negb (forallb fits32 (map (fun x => x - co) vs))) eqn:Hq; [discriminate|].
+    apply orb_false_iff in Hq. destruct Hq as [Hq Hq5].
+    apply orb_false_iff in Hq. destruct Hq as [Hq Hq4].
     apply orb_false_iff in Hq. destruct Hq as [Hq Hq3].
     apply orb_false_iff in Hq. destruct Hq as [Hq1 Hq2].
-    apply negb_false_iff in Hq2, Hq3.
+    apply negb_false_iff in Hq2, Hq3, Hq4, Hq5.
     destruct (resid (pred_qlpc (lpcqoffset_of h) qs) (map (fun x => x - co) (c_hist c))
                     (map (fun x => x - co) vs)) as [rs|] eqn:Hres; [|discriminate].
     destruct (forallb fits32 rs) eqn:Hfr; [|discriminate].
